@@ -134,6 +134,7 @@ def apply_op(kv, op):
         kv.convert(F)
     elif k == "convert_int":
         kv.convert(int)
+        kv.convert(F)       # back to exact rationals: python ints would turn into floats at the next division
     elif k == "copy":
         kv = copy(kv)
     elif k == "deepcopy":
